@@ -270,6 +270,7 @@ def _validate_params_with_signature(
     # Check if function accepts variable arguments (*args, **kwargs)
     has_var_positional = any(param.kind == inspect.Parameter.VAR_POSITIONAL for param in params_by_name.values())
     has_var_keyword = any(param.kind == inspect.Parameter.VAR_KEYWORD for param in params_by_name.values())
+    posonly_names = [name for name, param in params_by_name.items() if param.kind == inspect.Parameter.POSITIONAL_ONLY]
 
     # Find the last positional parameter index (excluding *args)
     max_positional_index = 0
@@ -317,7 +318,11 @@ def _validate_params_with_signature(
             seen_kwargs = True
 
             # Check for duplicate kwargs
-            if param.key in used_param_names:
+            # NOTE: The name of a positional-only parameter that was given positionally may still
+            # be used as a key of `**kwargs`, same as in Python.
+            if param.key in used_param_names and not (
+                has_var_keyword and param.key in posonly_names and param.key not in validated_kwargs
+            ):
                 raise TypeError(f"got multiple values for argument '{param.key}'")
 
             # Validate kwarg names if the function doesn't accept **kwargs
@@ -424,7 +429,11 @@ def _validate_params_with_code(
             seen_kwargs = True
 
             # Check for duplicate kwargs
-            if param.key in used_param_names:
+            # NOTE: The name of a positional-only parameter that was given positionally may still
+            # be used as a key of `**kwargs`, same as in Python.
+            if param.key in used_param_names and not (
+                has_var_keyword and param.key in param_names[:posonly_count] and param.key not in validated_kwargs
+            ):
                 raise TypeError(f"got multiple values for argument '{param.key}'")
 
             # Validate kwarg names
